@@ -270,7 +270,21 @@ def make_view_variant(dst: str, mode: str) -> int:
           if q is None or not isinstance(node.ctx, ast.Load):
             return node
           cands = [m for m in p.modules if q == m or q.startswith(m + '.')]
-          m = max(cands, key=len) if cands else q.rpartition('.')[0]
+          if cands:
+            m = max(cands, key=len)
+          else:
+            # an external module (`copy`) or a name of one (`os.path.join`):
+            # the longest importable prefix
+            import importlib.util as _iu
+            parts = q.split('.')
+            m = parts[0]
+            for i_ in range(len(parts), 0, -1):
+              try:
+                if _iu.find_spec('.'.join(parts[:i_])) is not None:
+                  m = '.'.join(parts[:i_])
+                  break
+              except (ImportError, ValueError, AttributeError):
+                continue
           expr = f"__import__('importlib').import_module({m!r})"
           rest = q[len(m) + 1:]
           if rest:
